@@ -148,7 +148,7 @@ int main(int argc, char** argv) {
             // ---- general family
             if (sel("GenEigsSolver")) { DenseGenMatProd<double> op(G); auto o = attempt([&]() { GenEigsSolver<DenseGenMatProd<double>> s(op, nev, ncv); });
                 judge(out, "GenEigsSolver", n, nev, ncv, gen_ok(n, nev, ncv), o);
-                out.corr("gen_ctor " + str(nev) + " " + str(ncv) + " " + str(n), o.s); }
+                out.corr("gen_ctor " + str(nev) + " " + str(ncv) + " " + str(n) + " " + str(n), o.s); }
             if (sel("GenEigsRealShiftSolver")) { auto o = attempt([&]() { DenseGenRealShiftSolve<double> op(G); GenEigsRealShiftSolver<DenseGenRealShiftSolve<double>> s(op, nev, ncv, 0.37); }); judge(out, "GenEigsRealShiftSolver", n, nev, ncv, gen_ok(n, nev, ncv), o); }
             if (sel("GenEigsComplexShiftSolver")) { auto o = attempt([&]() { DenseGenComplexShiftSolve<double> op(G); GenEigsComplexShiftSolver<DenseGenComplexShiftSolve<double>> s(op, nev, ncv, 0.37, 0.21); }); judge(out, "GenEigsComplexShiftSolver", n, nev, ncv, gen_ok(n, nev, ncv), o); }
             // ---- generalized symmetric
@@ -283,7 +283,7 @@ int main(int argc, char** argv) {
     }
     if (full || only_cls == "genop") {
         // ---- a solver of the general family over a NON-SQUARE general product wrapper (the wrapper itself takes any shape): the solver
-        // needs a square operator.  Model: GenEigsBase guard at n = op.rows().
+        // needs a square operator.  Model: regenerated GenEigsBase guard at n = op.rows(), cols = op.cols() (squareness check since the repair of F23).
         for (int r = 1; r <= SHAPE_MAX + 1; r++) for (int c = 1; c <= SHAPE_MAX + 1; c++) {
             if (r == c) continue;
             Mat M = shapemat(r, c); SpMat Ms = M.sparseView();
@@ -299,7 +299,7 @@ int main(int argc, char** argv) {
                     if (o.s == "ok") { out.count("genop_nonsquare_accepted"); if (!reported) { reported = true; out.fail("ctor-accept-nonsquare-operator", cls + " accepts " + args + " (std::invalid_argument required)", rj); } }
                     else if (o.s != "throw std::invalid_argument") out.fail("ctor-wrong-exception", cls + " rejects " + args + " with " + o.s, rj);
                     if (o.leaked) out.fail("ctor-leak", cls + ": " + str(o.leaked) + " heap block(s) still live, " + args, rj);
-                    out.corr("gen_ctor " + str(nev) + " " + str(ncv) + " " + str(r), o.s);
+                    out.corr("gen_ctor " + str(nev) + " " + str(ncv) + " " + str(r) + " " + str(c), o.s);
                 }
             }
         }
